@@ -288,4 +288,25 @@ theorem pushCtxNum_sim (cH : Context Slice) (cv : Context Bytes) (x : Option Nat
   obtain ⟨h, ⟨prog, pc, nextPC, rl, d, data, alt, depth, er⟩⟩ := s
   cases x <;> vm_sim [pushCtxNum]
 
+theorem pushCtxItem_sim (cH : Context Slice) (cv : Context Bytes) (xH : Option Slice) (xV : Option Bytes)
+    (hx : ∀ h, CtxSim h cH cv → (∀ y, xH = some y → Valid h y) ∧ xV = xH.map h.read) :
+    OpSim cH cv (pushCtxItem (heapMem g) xH) (pushCtxItem valueMem xV) := by
+  intro s hv hc
+  obtain ⟨h, ⟨prog, pc, nextPC, rl, d, data, alt, depth, er⟩⟩ := s
+  obtain ⟨hx1, rfl⟩ := hx h hc
+  cases xH with
+  | none => vm_sim [pushCtxItem]
+  | some y =>
+    have hy := hx1 y rfl
+    vm_sim [pushCtxItem]
+
+theorem opCheckOutput_sim (cH : Context Slice) (cv : Context Bytes) :
+    OpSim cH cv (opCheckOutput (heapMem g) cH) (opCheckOutput valueMem cv) := by
+  intro s hv hc
+  obtain ⟨h, ⟨prog, pc, nextPC, rl, d, data, alt, depth, er⟩⟩ := s
+  obtain ⟨hc1, rfl⟩ := hc
+  cases hh : cH.checkOutput <;>
+  rcases data with _ | ⟨x1, _ | ⟨x2, _ | ⟨x3, _ | ⟨x4, _ | ⟨x5, rest⟩⟩⟩⟩⟩ <;>
+  vm_sim [opCheckOutput, absCtx, hh, List.map_reverse]
+
 end BytomModel.VM
